@@ -132,6 +132,15 @@ def gen(tier, rng):
             for cut in (0, 1, 2, 3):          # (the length of the input shifts which token ends a batch of the level 3 match buffer)
                 if tier == "quick" and (ci + level + cut) % 2: continue
                 add(api=["deflate_stateless", "deflate"][(ci + level) % 2], inp=once[cut * 7:], level=level, wrap=[0, 1, 3][(ci + cut) % 3], lbuf=3, calls=[[len(once) - cut * 7, len(once) + 4000, 0, 1]], tail_ao=1 << 18, meta={"cls": "one-far-match-per-distance-code", "cpu": cpu})
+    # tiny windows (hist_bits 1-8 are legal: "values of 1 to 15") with one dominant byte in groups of four between varying bytes: with a 2- or
+    # 4-byte window the groups stay literals, and the dominant literal gets a 1-bit code, so several whole symbols share one output byte
+    for hb in (2, 1, 3, 5, 8):
+        grp = []
+        for i in range(900): grp += [88, 88, 88, 88, rng.choice(range(97, 117))]
+        for ci, cpu in enumerate(("avx512g2", "avx512", "avx2", "base")):
+            for level in (1, 2, 3, 0):
+                if tier == "quick" and (hb + ci + level) % 2 and hb not in (2,): continue
+                add(api=["deflate_stateless", "deflate"][(ci + level) % 2], inp=grp, level=level, wrap=[0, 1, 3][(hb + level) % 3], hist_bits=hb, lbuf=3, calls=[[len(grp), len(grp) + 600, 0, 1]], tail_ao=1 << 16, meta={"cls": "dominant-literal-groups-tiny-window", "cpu": cpu})
     # large inputs: stored-block splitting at 65535, 16-bit hash position wrap, internal buffer wrap
     big = [("random", 70000, 0), ("periodic", 200000, 2), ("text", 66000, 1), ("records", 36000 if tier == "quick" else 140000, 3)]
     if tier == "thorough":
